@@ -114,7 +114,7 @@ type Ctx struct {
 	maxSamp int
 }
 
-func (c *Ctx) Thorough() bool { return c.Tier == "thorough" || c.Escalated }
+func (c *Ctx) Thorough() bool { return c.Tier == "thorough" }
 
 // N picks a budget by tier. A "boost" (the source of a modelled function changed) multiplies the quick budget
 // by 6 without going beyond the thorough one.
@@ -122,8 +122,11 @@ func (c *Ctx) N(quick, thorough int) int {
 	if c.Thorough() {
 		return thorough
 	}
-	if c.Boost {
+	if c.Boost || c.Escalated {
 		b := quick * 6
+		if c.Escalated {
+			b = quick * 12 // the search after a broken proof / correspondence: wider than quick, bounded in time
+		}
 		if thorough < quick { // smaller-is-larger budgets (e.g. "0 = exhaustive") are left alone
 			return quick
 		}
